@@ -27,10 +27,20 @@ struct KJob final : Job {
   unsigned calls = 0, drops = 0, start = 0; bool dropped_in_submit = false, submitted = false;
 };
 static KJob g_job[2];
+// a job that hands its outcome to a continuation, which is submitted to the SAME pool (what Future::Then(pool, f) chains do)
+struct ReJob final : Job {
+  void Call() noexcept final { ++calls; Next(); }
+  void Drop() noexcept final { ++drops; Next(); }
+  void Next() noexcept { g_job[1].submitted = true; unsigned was = g_in_submit; g_in_submit = 1; reinterpret_cast<FairThreadPool*>(pool)->Submit(g_job[1]); g_in_submit = was; }
+  unsigned calls = 0, drops = 0; void* pool = nullptr;
+};
+static ReJob g_rejob;
+static bool g_resubmit;
 extern "C" void c08_prologue() { new (g_tp_buf) FairThreadPool{1}; }
 extern "C" void c08_worker() { vp_thread_body(0); }
 static void SubmitOne(unsigned i) { g_job[i].submitted = true; g_in_submit = 1; TP.Submit(g_job[i]); g_in_submit = 0; }
 extern "C" void c08_submitter() { SubmitOne(0); SubmitOne(1); }
+extern "C" void c08_resubmitter() { g_resubmit = true; g_rejob.pool = g_tp_buf; g_in_submit = 1; TP.Submit(g_rejob); g_in_submit = 0; }
 extern "C" void c08_stop() { TP.Stop(); }
 extern "C" void c08_softstop() { TP.SoftStop(); }
 extern "C" void c08_hardstop() { g_hard = 1; TP.HardStop(); }
@@ -40,7 +50,8 @@ extern "C" void c08_epilogue(unsigned kind) {
   TP.Wait();
   g_after_wait = 1;
   vp_assert(!TP.Alive(), "C08 pool still alive after Stop + Wait");
-  for (unsigned i = 0; i < 2; ++i) {
+  if (g_resubmit) vp_assert(g_rejob.calls + g_rejob.drops == 1, "C08 a job was neither Called nor Dropped exactly once");
+  for (unsigned i = g_resubmit ? 1 : 0; i < 2; ++i) {
     vp_assert(g_job[i].submitted, "harness: job never submitted");
     vp_assert(g_job[i].calls + g_job[i].drops == 1, "C08 a job was neither Called nor Dropped exactly once");
   }
@@ -48,8 +59,9 @@ extern "C" void c08_epilogue(unsigned kind) {
   vp_assert(g_call_after_wait == 0 && g_inside == 0, "C08 a job runs after Wait returned");
   vp_assert(g_overlap == 0, "C08 two jobs overlapped on a single worker");
   if (g_job[0].calls && g_job[1].calls) vp_assert(g_job[0].start < g_job[1].start, "C08 single worker: jobs must start in submission order");
-  if (kind == 1) vp_assert(g_job[0].calls + g_job[1].calls + (unsigned)g_job[0].dropped_in_submit + (unsigned)g_job[1].dropped_in_submit == 2, "C08 SoftStop dropped an accepted job");
+  if (kind == 1 && !g_resubmit) vp_assert(g_job[0].calls + g_job[1].calls + (unsigned)g_job[0].dropped_in_submit + (unsigned)g_job[1].dropped_in_submit == 2, "C08 SoftStop dropped an accepted job");
+  if (kind == 1 && g_resubmit) vp_assert(g_job[1].calls + (unsigned)g_job[1].dropped_in_submit == 1, "C08 SoftStop dropped an accepted job");
   TP.~FairThreadPool();
   vp_assert(vp_live_count() == 0, "C03 the pool left something allocated (thread state / vector storage)");
-  if (g_job[0].calls && g_job[1].calls) vp_reach("c08 both jobs ran"); else if (g_job[0].drops && g_job[1].drops) vp_reach("c08 both jobs dropped"); else vp_reach("c08 mixed");
+  if (g_resubmit) vp_reach("c08 resubmit scenario"); else if (g_job[0].calls && g_job[1].calls) vp_reach("c08 both jobs ran"); else if (g_job[0].drops && g_job[1].drops) vp_reach("c08 both jobs dropped"); else vp_reach("c08 mixed");
 }
